@@ -38,8 +38,90 @@ def run(index, rep):
     rep.guard(guards, food, rep)
     rep.guard(predicates, food, rep, index)
     rep.guard(minimum_rule, index, rep)
+    rep.guard(constructor_lanes, food, uc, rep)
     from .lanes import lane_rule
     rep.guard(lane_rule, index, rep, "C11.ARGLANE", ("kcals", "fat", "protein"), 500, "nutrient lanes crossed at a call")
+
+
+# =============================================================================== C11.CTOR
+
+
+def constructor_lanes(food, uc, rep):
+    """construction: the three numbers and the three labels a quantity is built from each land in their own slot - every store of a lane or a
+    label in the constructor reads its own argument only (the length of kcals may size a default), and every call of the label setter hands
+    the three labels over in the setter's own order, however the arguments are assembled (plainly, or spread from a comprehension)"""
+    import copy
+    rule = "C11.CTOR"
+    init = food.get("__init__")
+    su = uc.get("set_units") or food.get("set_units")
+    if init is None or su is None:
+        raise AnalysisError("Food.__init__ / set_units not found")
+    LANES3 = ("kcals", "fat", "protein")
+    order = [a.arg for a in su.args.args][1:4]
+    if [o.replace("_units", "") for o in order] != list(LANES3):
+        raise AnalysisError(f"set_units no longer takes (kcals_units, fat_units, protein_units): {order}")
+
+    def refs(e, suffix, skip_len=True):
+        """which of the three lanes (suffix '') or labels (suffix '_units') an expression reads, as parameters or as attributes of self"""
+        out = set()
+        for n_ in ast.walk(e):
+            if skip_len and isinstance(n_, ast.Call) and isinstance(n_.func, ast.Name) and n_.func.id == "len":
+                for x in ast.walk(n_):
+                    x._in_len = True
+        for n_ in ast.walk(e):
+            if getattr(n_, "_in_len", False):
+                continue
+            for ln in LANES3:
+                if (isinstance(n_, ast.Name) and n_.id == ln + suffix) or (isinstance(n_, ast.Attribute) and n_.attr == ln + suffix and isinstance(n_.value, ast.Name) and n_.value.id == "self"):
+                    out.add(ln)
+        return out
+
+    n = 0
+    for st in walk_no_nested(init):
+        if isinstance(st, ast.Assign) and len(st.targets) == 1 and isinstance(st.targets[0], ast.Attribute) and isinstance(st.targets[0].value, ast.Name) \
+                and st.targets[0].value.id == "self":
+            attr = st.targets[0].attr
+            for ln in LANES3:
+                for suffix in ("", "_units"):
+                    if attr == ln + suffix:
+                        n += 1
+                        got = refs(copy.deepcopy(st.value), suffix)
+                        rep.check(got <= {ln}, rule, f"__init__: self.{attr} from its own argument",
+                                  f"self.{attr} is computed from {sorted(got)}: a {'label' if suffix else 'number'} of another nutrient ends up in this slot",
+                                  loc=loc(FOOD, st))
+    for c in [c for c in walk_no_nested(init) if isinstance(c, ast.Call) and isinstance(c.func, ast.Attribute) and c.func.attr == "set_units"]:
+        args = list(c.args)
+        if len(args) == 1 and isinstance(args[0], ast.Starred):
+            v = args[0].value
+            if isinstance(v, (ast.ListComp, ast.GeneratorExp)) and len(v.generators) == 1 and not v.generators[0].ifs and isinstance(v.generators[0].target, ast.Name) \
+                    and isinstance(v.generators[0].iter, (ast.Tuple, ast.List)):
+                var = v.generators[0].target.id
+                args = []
+                for row in v.generators[0].iter.elts:
+                    class _S(ast.NodeTransformer):
+                        def visit_Name(self, n_):
+                            return copy.deepcopy(row) if n_.id == var and isinstance(n_.ctx, ast.Load) else n_
+                    args.append(_S().visit(copy.deepcopy(v.elt)))
+            elif isinstance(v, (ast.Tuple, ast.List)):
+                args = list(v.elts)
+        bound = dict(zip(order, args))
+        for k_ in c.keywords:
+            if k_.arg:
+                bound[k_.arg] = k_.value
+        ok = len(bound) >= 3 and not any(isinstance(a_, ast.Starred) for a_ in args)
+        detail = ""
+        if ok:
+            for p_, ln in zip(order, LANES3):
+                got = refs(copy.deepcopy(bound[p_]), "_units") if p_ in bound else {"?"}
+                if got != {ln}:
+                    ok = False
+                    detail = f"the {ln} label slot is given {norm_src(bound.get(p_))[:60] if p_ in bound else 'nothing'}"
+        n += 1
+        rep.check(ok, rule, f"__init__: set_units called with (kcals, fat, protein) labels in the setter's order [{c.lineno - init.lineno:+d}]",
+                  "the constructor hands the three labels to set_units in another order than the setter takes them (or in a form that does not show "
+                  "the order): " + detail, loc=loc(FOOD, c))
+    if n < 8:
+        raise AnalysisError(f"Food.__init__: only {n} lane / label stores and set_units calls found")
 
 
 # =============================================================================== C11.TS
